@@ -47,13 +47,13 @@ def SPc.isBegin : SPc → Bool
 
 /-- nothing is in flight: every client is idle, the worker is at `worker.recv`, the sweeper at `sweep.begin`
     (the command queue and the access buffers may hold anything) -/
-def Quiet (b : BState) : Prop := b.cl.all CPc.isIdle = true ∧ b.w.isRecv = true ∧ b.sw.isBegin = true
+def AllIdle (b : BState) : Prop := b.cl.all CPc.isIdle = true ∧ b.w.isRecv = true ∧ b.sw.isBegin = true
 
-instance (b : BState) : Decidable (Quiet b) := by unfold Quiet; infer_instance
+instance (b : BState) : Decidable (AllIdle b) := by unfold AllIdle; infer_instance
 
 theorem quiet_iff {b : BState} :
-    Quiet b ↔ (∀ (i : Nat) (pc : CPc), b.cl[i]? = some pc → pc = .idle) ∧ b.w = .recv ∧ b.sw = .begin := by
-  unfold Quiet
+    AllIdle b ↔ (∀ (i : Nat) (pc : CPc), b.cl[i]? = some pc → pc = .idle) ∧ b.w = .recv ∧ b.sw = .begin := by
+  unfold AllIdle
   constructor
   · rintro ⟨h1, h2, h3⟩
     refine ⟨?_, ?_, ?_⟩
@@ -70,7 +70,7 @@ theorem quiet_iff {b : BState} :
     rw [h1 i pc hi]; rfl
 
 /-- at rest no eviction is in flight -/
-theorem Quiet.noEviction {b : BState} (h : Quiet b) : removedInFlight b = 0 := by
+theorem AllIdle.noEviction {b : BState} (h : AllIdle b) : removedInFlight b = 0 := by
   obtain ⟨_, h2, h3⟩ := h
   unfold removedInFlight
   cases hw : b.w <;> simp_all [WPc.isRecv, WPc.heldW]
@@ -131,7 +131,7 @@ theorem C16_layerB_exact {cfg : Cfg} {now : Nat} {seeds : List Nat} {clients : N
 /-- **C16 at rest**: in every reachable running state in which nothing is in flight (every client idle, the worker at
     `worker.recv`, the sweeper at `sweep.begin`) the statistics are exact. -/
 theorem C16_layerB_at_rest {cfg : Cfg} {now : Nat} {seeds : List Nat} {clients : Nat} {b : BState} {gh : GhostB}
-    (hr : ReachGB cfg now seeds clients b gh) (hrun : b.g.shutting = false) (hq : Quiet b) :
+    (hr : ReachGB cfg now seeds clients b gh) (hrun : b.g.shutting = false) (hq : AllIdle b) :
     b.g.stats.hits + b.g.stats.misses = gh.lookups ∧
     b.g.stats.keysAdded = b.g.stats.keysDeleted + b.g.store.length ∧
     ((b.g.stats.weightAdded : Int) - b.g.stats.weightRemoved - b.g.adm.used) % (u64Mod : Int) = 0 ∧
@@ -371,7 +371,7 @@ example : c16viewB (runGB (BState.init { cfgEx with bufSize := 1 } 0 [1, 2, 3, 4
 /-- the hypotheses of `C16_layerB_at_rest` are satisfiable by a non-trivial state: reachable, running, quiet, with a
     hit, a miss, an eviction and a refusal behind it -/
 theorem C16_layerB_at_rest_witness :
-    ∃ b gh, ReachGB cfgEx 0 [1, 2, 3, 4] 2 b gh ∧ b.g.shutting = false ∧ Quiet b ∧
+    ∃ b gh, ReachGB cfgEx 0 [1, 2, 3, 4] 2 b gh ∧ b.g.shutting = false ∧ AllIdle b ∧
       b.g.stats.hits = 1 ∧ b.g.stats.misses = 1 ∧ b.g.stats.keysDeleted = 1 ∧ b.g.stats.keysRejected = 1 ∧
       b.g.adm.used = 9 := by
   have h : ∃ p, runGB c16B0 {} c16runD = some p := by
@@ -380,7 +380,7 @@ theorem C16_layerB_at_rest_witness :
     | some p => exact ⟨p, rfl⟩
   obtain ⟨⟨b, gh⟩, hp⟩ := h
   refine ⟨b, gh, runGB_reach _ (.init []) hp, ?_⟩
-  have hv : (runGB c16B0 {} c16runD).map (fun p => (p.1.g.shutting, decide (Quiet p.1),
+  have hv : (runGB c16B0 {} c16runD).map (fun p => (p.1.g.shutting, decide (AllIdle p.1),
       [p.1.g.stats.hits, p.1.g.stats.misses, p.1.g.stats.keysDeleted, p.1.g.stats.keysRejected], p.1.g.adm.used)) =
       some ((false, true, [1, 1, 1, 1], 9) : Bool × Bool × List Nat × Int) := by decide
   rw [hp] at hv
